@@ -511,6 +511,7 @@ func runC10(c *run.Ctx) {
 	injected += c10Menagerie(c)
 	injected += c10Unbound(c)
 	injected += c10AfterFailedLoad(c)
+	injected += c10RootMoved(c)
 	injected += c10Subscription(c)
 	c.MinNontriv = injected / 2
 	c.Set("defects_injected", injected)
@@ -744,6 +745,7 @@ func c10Unbound(c *run.Ctx) int {
 		{"unknown-directive", `zzbad: name @nopeDirZz`, "nopeDirZz", ""},
 		{"misplaced-directive", `zzbad: name @deprecated`, "deprecated", ""},
 		{"undefined-inline-type", `... on NopeTypeZz { name }`, "NopeTypeZz", ""},
+		{"undeclared-arg-alone", `zzbad: __typename(zz_undeclared: 1)`, "zz_undeclared", ""},
 	}
 	for i := 0; i < n && !c.TooMany(); i++ {
 		r := c.Rand(760000 + i)
@@ -855,6 +857,10 @@ func c10Unbound(c *run.Ctx) int {
 		{`{ __schema { types { enumValues(zz_undeclared: 1) { name } } } }`, "zz_undeclared"},
 		{`{ ant { __typename(zz_undeclared: 1) } }`, "zz_undeclared"},
 		{`{ __typename(zz_undeclared: 1) }`, "zz_undeclared"},
+		{`{ __schema { __typename(zz_undeclared: 1) } }`, "zz_undeclared"},
+		{`{ __schema { types { name __typename(zz_undeclared: 1) } } }`, "zz_undeclared"},
+		{`{ __type(name: "Dog") { fields { __typename(zz_undeclared: 1) type { __typename(zz_undeclared: 2) } } } }`, "zz_undeclared"},
+		{`{ __schema { directives { args { __typename(zz_undeclared: 1) } } } }`, "zz_undeclared"},
 	}
 	for i := 0; i < len(intro)*3; i++ {
 		ic := intro[i%len(intro)]
@@ -1028,6 +1034,105 @@ func c10Subscription(c *run.Ctx) int {
 			}
 			if diag != "" {
 				c.Violation("c10-subscription-event", map[string]interface{}{"subscriptions_in_order": seq, "defective_subscription": texts[1], "offender": d.offender, "diag": diag})
+			}
+		}
+	}
+	return done
+}
+
+type c10MObj struct{}
+
+func (o *c10MObj) Resolve(f *ggql.Field, args map[string]interface{}) (interface{}, error) {
+	switch f.Name {
+	case "query", "mutation", "legacy":
+		return &c10MObj{}, nil
+	}
+	return 1, nil
+}
+
+// c10RootMoved: __schema and __type are fields of the query root operation type only - of the type that IS the query
+// root when the request is answered. An application loads a first document (implicit schema, root type Query), answers
+// requests (some with meta-fields, also under mutation), then loads a second document whose explicit schema makes Root2
+// the query root, from which objects of the former root type Query stay reachable. From then on the meta-fields are
+// undefined on Query objects (error, nothing resolved for them) and defined on Root2.
+func c10RootMoved(c *run.Ctx) int {
+	warm := []string{``, `{ __schema { queryType { name } } a }`, `{ __type(name: "Query") { name } }`, `mutation { __schema { queryType { name } } m }`, `{ a }`,
+		`mutation { m __type(name: "Query") { name } }`}
+	type probe struct {
+		text    string
+		defined bool
+		offend  string
+	}
+	probes := []probe{
+		{`{ legacy { __schema { queryType { name } } a } b }`, false, "__schema"},
+		{`{ legacy { a __type(name: "Query") { name } } b }`, false, "__type"},
+		{`{ b legacy { ...F } } fragment F on Query { __schema { types { name } } }`, false, "__schema"},
+		{`{ __schema { queryType { name } } b }`, true, ""},
+		{`{ b __type(name: "Query") { name } }`, true, ""},
+		{`mutation { __schema { queryType { name } } m }`, false, "__schema"},
+	}
+	done := 0
+	for round := 0; round < c.N(30, 400) && !c.TooMany(); round++ {
+		r := c.Rand(790000 + round)
+		root := ggql.NewRoot(&c10MObj{})
+		if err := root.ParseString("type Query { a: Int }\ntype Mutation { m: Int }"); err != nil {
+			c.Violation("c10-schema-rejected", map[string]interface{}{"error": err.Error()})
+			return done
+		}
+		var hist []string
+		for k := r.Intn(3); k > 0; k-- {
+			if w := warm[r.Intn(len(warm))]; w != "" {
+				_, _ = run.Protect(func() { _ = root.ResolveString(w, "", nil) })
+				hist = append(hist, w)
+			}
+		}
+		if err := root.ParseString("schema { query: Root2 mutation: Mutation }\ntype Root2 { legacy: Query b: Int }"); err != nil {
+			c.Violation("c10-schema-rejected", map[string]interface{}{"error": err.Error(), "history": hist})
+			return done
+		}
+		hist = append(hist, "load: schema { query: Root2 mutation: Mutation } type Root2 { legacy: Query b: Int }")
+		for k := 0; k < 3; k++ {
+			p := probes[r.Intn(len(probes))]
+			var resp map[string]interface{}
+			pv, _ := run.Protect(func() { resp = root.ResolveString(p.text, "", nil) })
+			hist = append(hist, p.text)
+			done++
+			c.Eval("root-moved|"+strings.Join(hist, "|"), true)
+			c.Bucket("container", "former-query-root-after-the-schema-names-another")
+			diag := ""
+			el, _ := resp["errors"].([]interface{})
+			msgs := fmt.Sprint(el)
+			data, _ := resp["data"].(map[string]interface{})
+			switch {
+			case pv != nil:
+				diag = fmt.Sprint("panic: ", pv)
+			case p.defined && len(el) > 0:
+				diag = "meta-field of the query root refused: " + msgs
+			case p.defined:
+				if sm, isS := data["__schema"].(map[string]interface{}); isS {
+					if qt, _ := sm["queryType"].(map[string]interface{}); qt == nil || qt["name"] != "Root2" {
+						diag = fmt.Sprint("queryType is ", sm["queryType"])
+					}
+				} else if tm, isT := data["__type"].(map[string]interface{}); !isT || tm["name"] != "Query" {
+					diag = "no data for the meta-field"
+				}
+			case len(el) == 0:
+				diag = "no error reported for " + p.offend + " selected on a type that is not the query root"
+			case !strings.Contains(msgs, p.offend):
+				diag = "no error message names the offender"
+			default:
+				if lm, _ := data["legacy"].(map[string]interface{}); lm != nil {
+					if v, has := lm[p.offend]; has && v != nil {
+						diag = "the undefined meta-field was resolved: " + fmt.Sprint(v)
+					}
+				}
+				if v, has := data[p.offend]; has && v != nil {
+					diag = "the undefined meta-field was resolved: " + fmt.Sprint(v)
+				}
+			}
+			if diag != "" {
+				c.Violation("c10-root-moved", map[string]interface{}{"history": hist, "document": p.text, "offender": p.offend, "diag": diag, "response": fmt.Sprint(resp)})
+				break
 			}
 		}
 	}
